@@ -1380,6 +1380,15 @@ class Engine:
     def key_eq(self, stored, key):
         if stored is key:
             return True
+        # an integer key and an object key: CPython compares hashes first;
+        # the engine assumes no collision between hash(int) and the hash of
+        # an object (listed as an encoding assumption)
+        a_num = isinstance(stored, (int, SNum)) and not isinstance(stored,
+                                                                   bool)
+        b_num = isinstance(key, (int, SNum)) and not isinstance(key, bool)
+        if (a_num and isinstance(key, ObjVal)) or (
+                b_num and isinstance(stored, ObjVal)):
+            return False
         # dict lookup compares hash first; Node-vs-str relies on
         # hash(Node(s)) == hash(s): modelled as plain equality
         return self.eq(key, stored) if isinstance(key, ObjVal) else \
